@@ -70,6 +70,7 @@ def plain_callable(draw, i):
     n_def = draw(st.integers(0, n - 1)) if n > 1 else draw(st.integers(0, 1)) * 0
     kw_only_from = draw(st.integers(1, n)) if draw(st.integers(0, 3)) == 0 else n
     parts, params = [], []
+    odd_defaults = set()  # parameters whose default lies outside the declared type
     for k, (nm, t) in enumerate(zip(names, types)):
         if k == kw_only_from and kw_only_from < n:
             parts.append("*")
@@ -80,6 +81,8 @@ def plain_callable(draw, i):
             # but an explicitly passed equal value is)
             if draw(st.integers(0, 2)) == 0:
                 dv = draw(st.sampled_from(["None", "0", '""', "()"]))
+                if member.mem(eval(dv, NS), ty(t)) is not True:
+                    odd_defaults.add(nm)
             else:
                 dv = inhabitant_srcs(t, 1)[0]
             dflt = f" = {dv}"
@@ -92,7 +95,11 @@ def plain_callable(draw, i):
     if draw(st.integers(0, 3)) == 0:
         kwv_t = draw(st.sampled_from(["int", "str", "A"]))
         parts.append(f"**kwargs: {kwv_t}")
-    ret_from = draw(st.sampled_from(names))
+    # the returned parameter must be of the declared type on every path (result check)
+    ret_from = draw(st.sampled_from([nm for nm in names if nm not in odd_defaults] or names[:1]))
+    if ret_from in odd_defaults:
+        parts = [p.split(" = ")[0] if p.startswith(ret_from + ":") else p for p in parts]
+        params = [(nm, kind, t, False if nm == ret_from else d) for (nm, kind, t, d) in params]
     ret_t = types[names.index(ret_from)]
     sig = ", ".join(parts)
     form = draw(st.sampled_from(["func", "func", "method", "classmethod", "staticmethod", "init", "dataclass"]))
